@@ -270,6 +270,21 @@ let handle (toks : string list) : string =
       let f l = if l = [] then "-" else String.concat "," (List.sort compare (List.map str_of_path l)) in
       Printf.sprintf "exit=%d matched=%d mismatched=%s only_src=%s only_dst=%s errors=%s" (int_of_z (verify_exit r)) (int_of_nat r.vr_matched)
         (f r.vr_mismatched) (f r.vr_only_src) (f r.vr_only_dst) (f r.vr_errors)
+  | ["LK"; mode; dinit; hist] ->
+      (* link entry history: dinit = a | l<t> | f<c> | d ; hist = t:cwd,... with cwd = m | d | f<c> *)
+      let m = (match mode with "preserve" -> LPreserve | "follow" -> LFollow | _ -> LSkip) in
+      let num t = n_of_int (int_of_string (String.sub t 1 (String.length t - 1))) in
+      let dent t = (match t.[0] with 'a' -> DAbsent | 'l' -> DLink (num t) | 'f' -> DFile (num t) | _ -> DDir) in
+      let show = function DAbsent -> "a" | DLink t -> "l" ^ string_of_int (int_of_n t) | DFile c -> "f" ^ string_of_int (int_of_n c) | DDir -> "d" in
+      let steps = String.split_on_char ',' hist in
+      let (_, outs) = List.fold_left (fun (d, acc) st ->
+        match String.split_on_char ':' st with
+        | [t; cw] ->
+            let s = { l_target = nint t; l_cwd = (match cw.[0] with 'm' -> RMissing | 'd' -> RDir | _ -> RFile (num cw)) } in
+            let d' = sync_link m s d in
+            (d', (show d' ^ (if wrote_through m s d then "!" else "")) :: acc)
+        | _ -> failwith "lk step") (dent dinit, []) steps in
+      String.concat "," (List.rev outs)
   | _ -> "BADCASE"
 
 let () =
